@@ -9,6 +9,7 @@ pub ghost struct Net {
     pub trust_roots: Seq<Seq<u8>>,          // PEM contents of the configured root certificate files (C18)
     pub last_success: bool,                 // status class of the latest response
     pub last_body: Seq<char>,               // body of the latest response
+    pub waited: nat,                        // nanoseconds this task has spent in std::thread::sleep between transmissions (C07: bounded)
 }
 // one observable effect on the file system / child processes, in program order
 pub ghost enum FsEvent {
@@ -30,6 +31,18 @@ pub tracked struct World {
     pub ghost net: Net,
     pub ghost fs: Fs,
 }
+}
+// std::thread as far as the HTTP layer uses it: sleep(d) blocks for d, and what has been waited is on record
+pub mod vthread {
+    use vstd::prelude::*;
+    use crate::*;
+    verus! {
+    #[verifier::external_body]
+    pub fn sleep(d: std::time::Duration, Tracked(w): Tracked<&mut World>)
+        ensures final(w).clock >= old(w).clock + dur(d), final(w).admissions == old(w).admissions, final(w).fs == old(w).fs,
+            final(w).net == (Net { waited: old(w).net.waited + dur(d), ..old(w).net })
+    { }
+    }
 }
 pub mod vtime {
     use vstd::prelude::*;
